@@ -245,8 +245,13 @@ def c06(pid, tier, seed):
     fams = [
         fam("hidden_target", W=10, H=5, D=4 if q else 5, BarOps=ops, MsgShapes=("a", "tab"), TextShapes=("T",), Tpls=("MnC",), Fins=("AndLeave", "AndClear"), Tgt="hidden"),
         fam("not_a_tty", W=10, H=5, D=4 if q else 5, BarOps=ops, MsgShapes=("a",), TextShapes=("T",), Tpls=("MnC",), Fins=("AndLeave", "WithMessage"), Tgt="pipe"),
-        fam("hidden_multi", W=10, H=5, Multi=True, MaxBars=2, D=4 if q else 5, BarOps=ops + ("mp_remove",), MpOps=("mp_println", "mp_clear", "mp_suspend", "insert"),
+        fam("hidden_multi", W=10, H=5, Multi=True, MaxBars=2, D=4, BarOps=ops + ("mp_remove",), MpOps=("mp_println", "mp_clear", "mp_suspend", "insert"),
             MsgShapes=("a",), TextShapes=("T",), Tpls=("MnC",), Fins=("AndLeave", "AndClear"), Tgt="hidden", M0="id", shards=12),
+    ] + ([] if q else [
+        # depth 5 of the full alphabet is ~40M records (measured: 325k histories for this one); the deep family keeps the calls that change what a hidden member holds
+        fam("hidden_multi_deep", W=10, H=5, Multi=True, MaxBars=2, D=5, BarOps=("inc", "set_message", "println", "finish", "finish_and_clear", "reset", "drop", "mp_remove"),
+            MpOps=("mp_println", "mp_clear", "insert"), MsgShapes=("a",), TextShapes=("T",), Tpls=("MnC",), Fins=("AndLeave",), Tgt="hidden", M0="id", shards=12),
+    ]) + [
         fam("not_a_tty_multi", W=10, H=5, Multi=True, MaxBars=2, D=4, BarOps=("tick", "set_message", "println", "finish", "drop"), MpOps=("mp_println", "mp_clear"),
             MsgShapes=("a",), TextShapes=("T",), Tpls=("MnC",), Fins=("AndLeave",), Tgt="pipe", M0="id", shards=12),
         fam("removed_member", W=10, H=8, Multi=True, MaxBars=2, Pre=2, D=5 if q else 7, BarOps=("tick", "inc", "set_message", "println", "finish", "finish_and_clear", "drop", "mp_remove"),
